@@ -461,46 +461,66 @@ static inline void bg_vec_list_u__resize(bg_adj *a, bg_size k, const bg_list *v)
 }
 
 /* --------------------------- std::unordered_map<Edge, L, hashEdge> (labels) */
-#define BG_DEFINE_MAP(TAG, T, EQ, ZERO)                                       \
+/* NUM(v): numeric value of a label for the ghost sum (0 for non-numeric labels) */
+/* B-SUM: ghost sums stay in range (values below 2^40 in magnitude, sums below 2^60) */
+#define BG_SUM_RANGE(v, sum)                                                  \
+  ((v) > -(1L << 40) && (v) < (1L << 40) && (sum) > -(1L << 60) && (sum) < (1L << 60))
+#define BG_NUM_ZERO(v) 0L
+#define BG_NUM_VAL(v) ((long)(v))
+#define BG_DEFINE_MAP(TAG, T, EQ, ZERO, NUM)                                  \
   static inline void bg_map_##TAG##__ctor(bg_map_##TAG *m) {                  \
-    m->s.hasPQ = m->s.hasQP = 0;                                                  \
+    m->s.hasPQ = m->s.hasQP = 0;                                              \
     m->valPQ = (T *)malloc(sizeof(T));                                        \
     m->valQP = (T *)malloc(sizeof(T));                                        \
     BG_ASSUME(m->valPQ != 0 && m->valQP != 0);                                \
     *m->valPQ = (T)ZERO;                                                      \
     *m->valQP = (T)ZERO;                                                      \
-    m->s.restCount = 0;                                                         \
+    m->s.restCount = 0;                                                       \
+    m->s.restSum = 0;                                                         \
   }                                                                           \
   static inline bg_size bg_map_##TAG##__size(const bg_map_##TAG *m) {         \
-    return (bg_size)m->s.hasPQ + (bg_size)m->s.hasQP + m->s.restCount;              \
+    return (bg_size)m->s.hasPQ + (bg_size)m->s.hasQP + m->s.restCount;        \
+  }                                                                           \
+  /* write a checked-out cell back into the rest sum */                       \
+  static inline void bg_map_##TAG##__checkin(void) {                          \
+    if (bg_scratch_val_##TAG.valid && bg_scratch_val_##TAG.out) {             \
+      bg_map_##TAG *o = (bg_map_##TAG *)bg_scratch_val_##TAG.from;            \
+      if (bg_scratch_val_##TAG.has) {                                         \
+        BG_ASSUME(BG_SUM_RANGE(NUM(bg_scratch_val_##TAG.val), o->s.restSum)); \
+        o->s.restSum += NUM(bg_scratch_val_##TAG.val);                        \
+      }                                                                       \
+      bg_scratch_val_##TAG.out = 0;                                           \
+    }                                                                         \
   }                                                                           \
   static inline void bg__map_##TAG##_load(const bg_map_##TAG *m, bg_edge k) { \
     if (!(bg_scratch_val_##TAG.valid && bg_scratch_val_##TAG.from == m &&     \
           bg_scratch_val_##TAG.key.first == k.first &&                        \
           bg_scratch_val_##TAG.key.second == k.second)) {                     \
+      bg_map_##TAG##__checkin();                                              \
       bg_scratch_val_##TAG.has = nondet_bg_bool();                            \
-      BG_ASSUME(!bg_scratch_val_##TAG.has || m->s.restCount > 0);               \
+      BG_ASSUME(!bg_scratch_val_##TAG.has || m->s.restCount > 0);             \
       bg_scratch_val_##TAG.key = k;                                           \
       bg_scratch_val_##TAG.from = m;                                          \
       bg_scratch_val_##TAG.valid = 1;                                         \
+      bg_scratch_val_##TAG.out = 0;                                           \
     }                                                                         \
   }                                                                           \
   static inline bg_size bg_map_##TAG##__count(const bg_map_##TAG *m,          \
                                               const bg_edge *k) {             \
     if (k->first == G_P && k->second == G_Q)                                  \
-      return m->s.hasPQ;                                                        \
+      return m->s.hasPQ;                                                      \
     if (k->first == G_Q && k->second == G_P)                                  \
-      return m->s.hasQP;                                                        \
+      return m->s.hasQP;                                                      \
     bg__map_##TAG##_load(m, *k);                                              \
     return bg_scratch_val_##TAG.has;                                          \
   }                                                                           \
   static inline const T *bg_map_##TAG##__at_c(const bg_map_##TAG *m,          \
                                               const bg_edge *k) {             \
     if (k->first == G_P && k->second == G_Q) {                                \
-      if (m->s.hasPQ)                                                           \
+      if (m->s.hasPQ)                                                         \
         return m->valPQ;                                                      \
     } else if (k->first == G_Q && k->second == G_P) {                         \
-      if (m->s.hasQP)                                                           \
+      if (m->s.hasQP)                                                         \
         return m->valQP;                                                      \
     } else {                                                                  \
       bg__map_##TAG##_load(m, *k);                                            \
@@ -512,25 +532,31 @@ static inline void bg_vec_list_u__resize(bg_adj *a, bg_size k, const bg_list *v)
   }                                                                           \
   static inline T *bg_map_##TAG##__index(bg_map_##TAG *m, const bg_edge *k) { \
     if (k->first == G_P && k->second == G_Q) {                                \
-      if (!m->s.hasPQ) {                                                        \
-        m->s.hasPQ = 1;                                                         \
+      if (!m->s.hasPQ) {                                                      \
+        m->s.hasPQ = 1;                                                       \
         *m->valPQ = (T)ZERO;                                                  \
       }                                                                       \
       return m->valPQ;                                                        \
     }                                                                         \
     if (k->first == G_Q && k->second == G_P) {                                \
-      if (!m->s.hasQP) {                                                        \
-        m->s.hasQP = 1;                                                         \
+      if (!m->s.hasQP) {                                                      \
+        m->s.hasQP = 1;                                                       \
         *m->valQP = (T)ZERO;                                                  \
       }                                                                       \
       return m->valQP;                                                        \
     }                                                                         \
     bg__map_##TAG##_load(m, *k);                                              \
     if (!bg_scratch_val_##TAG.has) {                                          \
-      BG_ASSUME(m->s.restCount + 1 < BG_CAP); /* B-LEN */                       \
-      m->s.restCount++;                                                         \
+      BG_ASSUME(m->s.restCount + 1 < BG_CAP); /* B-LEN */                     \
+      m->s.restCount++;                                                       \
       bg_scratch_val_##TAG.has = 1;                                           \
       bg_scratch_val_##TAG.val = (T)ZERO;                                     \
+      bg_scratch_val_##TAG.out = 1;                                           \
+    } else if (!bg_scratch_val_##TAG.out) {                                   \
+      /* check out: the caller may write through the returned reference */    \
+      BG_ASSUME(BG_SUM_RANGE(NUM(bg_scratch_val_##TAG.val), m->s.restSum));   \
+      m->s.restSum -= NUM(bg_scratch_val_##TAG.val);                          \
+      bg_scratch_val_##TAG.out = 1;                                           \
     }                                                                         \
     return &bg_scratch_val_##TAG.val;                                         \
   }                                                                           \
@@ -538,48 +564,55 @@ static inline void bg_vec_list_u__resize(bg_adj *a, bg_size k, const bg_list *v)
                                               const bg_edge *k) {             \
     bg_size r;                                                                \
     if (k->first == G_P && k->second == G_Q) {                                \
-      r = m->s.hasPQ;                                                           \
-      m->s.hasPQ = 0;                                                           \
+      r = m->s.hasPQ;                                                         \
+      m->s.hasPQ = 0;                                                         \
       return r;                                                               \
     }                                                                         \
     if (k->first == G_Q && k->second == G_P) {                                \
-      r = m->s.hasQP;                                                           \
-      m->s.hasQP = 0;                                                           \
+      r = m->s.hasQP;                                                         \
+      m->s.hasQP = 0;                                                         \
       return r;                                                               \
     }                                                                         \
     bg__map_##TAG##_load(m, *k);                                              \
     r = bg_scratch_val_##TAG.has;                                             \
     if (r) {                                                                  \
-      m->s.restCount--;                                                         \
+      m->s.restCount--;                                                       \
+      if (!bg_scratch_val_##TAG.out) {                                        \
+        BG_ASSUME(BG_SUM_RANGE(NUM(bg_scratch_val_##TAG.val), m->s.restSum)); \
+        m->s.restSum -= NUM(bg_scratch_val_##TAG.val);                        \
+      }                                                                       \
       bg_scratch_val_##TAG.has = 0;                                           \
     }                                                                         \
+    bg_scratch_val_##TAG.out = 0;                                             \
     bg_scratch_val_##TAG.valid = 0;                                           \
     return r;                                                                 \
   }                                                                           \
   static inline void bg_map_##TAG##__clear(bg_map_##TAG *m) {                 \
-    m->s.hasPQ = m->s.hasQP = 0;                                                  \
-    m->s.restCount = 0;                                                         \
+    m->s.hasPQ = m->s.hasQP = 0;                                              \
+    m->s.restCount = 0;                                                       \
+    m->s.restSum = 0;                                                         \
     bg_scratch_val_##TAG.valid = 0;                                           \
+    bg_scratch_val_##TAG.out = 0;                                             \
   }                                                                           \
   /* operator== : true => observed entries agree and sizes agree;           \
      false => nothing is promised here (witness is a ghost, see contracts) */ \
   static inline bg_bool bg_map_##TAG##__eq(const bg_map_##TAG *a,             \
                                            const bg_map_##TAG *b) {           \
-    bg_bool obs = a->s.hasPQ == b->s.hasPQ && a->s.hasQP == b->s.hasQP &&             \
-                  (!a->s.hasPQ || EQ(*a->valPQ, *b->valPQ)) &&                  \
-                  (!a->s.hasQP || EQ(*a->valQP, *b->valQP)) &&                  \
-                  a->s.restCount == b->s.restCount;                               \
+    bg_bool obs = a->s.hasPQ == b->s.hasPQ && a->s.hasQP == b->s.hasQP &&     \
+                  (!a->s.hasPQ || EQ(*a->valPQ, *b->valPQ)) &&                \
+                  (!a->s.hasQP || EQ(*a->valQP, *b->valQP)) &&                \
+                  a->s.restCount == b->s.restCount;                           \
     if (!obs)                                                                 \
       return 0;                                                               \
-    if (a->s.restCount == 0)                                                    \
+    if (a->s.restCount == 0)                                                  \
       return 1;                                                               \
     return nondet_bg_bool();                                                  \
   }
 
-BG_DEFINE_MAP(VLabel, VLabel, BG_EQ_VLABEL, BG_ZERO_STRUCT)
-BG_DEFINE_MAP(NoLabel, NoLabel, BG_EQ_TRUE, BG_ZERO_STRUCT)
-BG_DEFINE_MAP(uint, EdgeMultiplicity, BG_EQ_SCALAR, 0)
-BG_DEFINE_MAP(real, bg_real, BG_EQ_SCALAR, 0)
+BG_DEFINE_MAP(VLabel, VLabel, BG_EQ_VLABEL, BG_ZERO_STRUCT, BG_NUM_ZERO)
+BG_DEFINE_MAP(NoLabel, NoLabel, BG_EQ_TRUE, BG_ZERO_STRUCT, BG_NUM_ZERO)
+BG_DEFINE_MAP(uint, EdgeMultiplicity, BG_EQ_SCALAR, 0, BG_NUM_VAL)
+BG_DEFINE_MAP(real, bg_real, BG_EQ_SCALAR, 0, BG_NUM_VAL)
 
 /* ---------------------------------------------------------------- misc */
 
@@ -646,9 +679,18 @@ static inline bg_vec_sz *bg_mat_sz__index(bg_mat_sz *a, bg_size i) {
   return &bg_scratch_vec_sz;
 }
 
+/* after a call replaced by its contract the cache content is unknown: forget it */
+static inline void bg_ghost_invalidate(void) {
+  bg_ghost_scratch_reset();
+  bg_ghost_frontier.a = 0;
+  BG_CAT(bg_scratch_val_, BG_L).valid = 0;
+  BG_CAT(bg_scratch_val_, BG_L).out = 0;
+}
 static inline void bg_ghost_reset_all(void) {
   bg_ghost_scratch_reset();
   bg_ghost_frontier.a = 0; /* a callee may change rows below the frontier */
+  BG_CAT(BG_CAT(bg_map_, BG_L), __checkin)();
   BG_CAT(bg_scratch_val_, BG_L).valid = 0;
+  BG_CAT(bg_scratch_val_, BG_L).out = 0;
 }
 #endif
